@@ -88,11 +88,12 @@ CountOps(QS, MS) == {[op |-> "count", q |-> q, m |-> m] : q \in QS, m \in MS}
 BadKinds == {"int", "int0", "float", "float0", "bool", "bool0", "bytes", "bytes0", "none",
              "list", "list0", "dict", "dict0", "str", "str0"}
 TruthyKinds == {"int", "float", "bool", "bytes", "list", "dict", "str"}
-Slots == {"time", "measurement", "tagkey", "tagvalue", "fieldkey", "fieldvalue"}
+Slots == {"time", "measurement", "tagkey", "tagvalue", "fieldkey", "fieldvalue",
+          "tagkey_none", "fieldkey_none"}          \* a wrongly typed key whose VALUE is None (a value check that skips None must not skip the key)
 WrongFor(slot) ==
   CASE slot = "time" -> BadKinds
     [] slot = "measurement" -> BadKinds \ {"str", "str0"}
-    [] slot \in {"tagkey", "fieldkey"} -> {"int", "int0", "float", "float0", "bool", "bool0", "bytes", "bytes0", "none"}
+    [] slot \in {"tagkey", "fieldkey", "tagkey_none", "fieldkey_none"} -> {"int", "int0", "float", "float0", "bool", "bool0", "bytes", "bytes0", "none"}
     [] slot = "tagvalue" -> BadKinds \ {"str", "str0", "none"}
     [] slot = "fieldvalue" -> {"bool", "bool0", "bytes", "bytes0", "list", "list0", "dict", "dict0", "str", "str0"}
 StaticEntries   == {"update_static", "update_all_static", "handle_update_static"}
@@ -110,7 +111,7 @@ KindsFor(entry, slot) ==
 Companions == {"none", "time", "measurement", "tags", "fields", "tags_callable", "fields_callable"}
 CompanionArg(w) == CASE w = "tags_callable" -> "tags" [] w = "fields_callable" -> "fields" [] OTHER -> w
 ArgOf(slot) == CASE slot = "time" -> "time" [] slot = "measurement" -> "measurement"
-                 [] slot \in {"tagkey", "tagvalue"} -> "tags" [] OTHER -> "fields"
+                 [] slot \in {"tagkey", "tagvalue", "tagkey_none"} -> "tags" [] OTHER -> "fields"
 BadOps ==
   {[op |-> "bad", entry |-> e, slot |-> sl, kind |-> k, with |-> w,
     q |-> Me("noop", 0), m |-> IF e \in {"handle_update_static", "handle_update_callable"} THEN 1 ELSE N,
